@@ -53,7 +53,14 @@ type CorrResult struct {
 	Samples    []string       `json:"samples"`
 }
 
-var modelrunPath = "/verif/ocaml/build/modelrun"
+var verifRoot = func() string {
+	if r := os.Getenv("VERIF_ROOT"); r != "" {
+		return r
+	}
+	return "/verif"
+}()
+
+var modelrunPath = verifRoot + "/ocaml/build/modelrun"
 
 // runModel evaluates the extracted model on the given case lines (sharded over processes).
 func runModel(lines []string) ([]string, error) {
